@@ -61,6 +61,10 @@ class PackageLoader(BaseLoader):
         if os.path.pardir in template_path.parts or template_path.is_absolute():
             raise TemplateNotFoundError(template_name)
 
+        # An empty name, "." or "./" for example, can't be given a suffix.
+        if not template_path.name:
+            raise TemplateNotFoundError(template_name)
+
         # Add suffix self.ext if template name does not have a suffix.
         if not template_path.suffix:
             template_path = template_path.with_suffix(self.ext)
